@@ -40,7 +40,6 @@ fn id_pair(ln1: usize, lv1: usize, ln2: usize, lv2: usize) {
 
 /// id: boundary-shifted splits of 3 bytes: name "xy" + value "z"  vs  name "x" + value "yz".
 #[cfg_attr(kani, kani::proof, kani::unwind(6),
-    kani::stub(std::fmt::format, fmt_stub),
     kani::stub(<[crate::proto::LabelPair]>::sort, sort_stub),
     kani::stub(<fnv::FnvHasher as std::hash::Hasher>::write, fnv_write_injective))]
 pub fn c15_id_boundary_shift_21_vs_12() {
@@ -48,7 +47,6 @@ pub fn c15_id_boundary_shift_21_vs_12() {
 }
 /// id: name "xy" + empty value  vs  name "x" + value "y".
 #[cfg_attr(kani, kani::proof, kani::unwind(6),
-    kani::stub(std::fmt::format, fmt_stub),
     kani::stub(<[crate::proto::LabelPair]>::sort, sort_stub),
     kani::stub(<fnv::FnvHasher as std::hash::Hasher>::write, fnv_write_injective))]
 pub fn c15_id_boundary_shift_20_vs_11() {
@@ -56,7 +54,6 @@ pub fn c15_id_boundary_shift_20_vs_11() {
 }
 /// id: same shape (2-byte name, 2-byte value): equal exactly when all bytes are equal.
 #[cfg_attr(kani, kani::proof, kani::unwind(6),
-    kani::stub(std::fmt::format, fmt_stub),
     kani::stub(<[crate::proto::LabelPair]>::sort, sort_stub),
     kani::stub(<fnv::FnvHasher as std::hash::Hasher>::write, fnv_write_injective))]
 pub fn c15_id_same_shape_22() {
@@ -66,7 +63,6 @@ pub fn c15_id_same_shape_22() {
 /// id with two const labels: independent of insertion order and of map iteration order; values
 /// are taken in label-name order.
 #[cfg_attr(kani, kani::proof, kani::unwind(6),
-    kani::stub(std::fmt::format, fmt_stub),
     kani::stub(<[crate::proto::LabelPair]>::sort, sort_stub),
     kani::stub(<fnv::FnvHasher as std::hash::Hasher>::write, fnv_write_injective))]
 pub fn c15_id_two_const_labels_order_independent() {
@@ -128,7 +124,6 @@ fn dim_pair(v1: &[&str], c1: bool, v2: &[&str], c2: bool, same_structure: bool) 
 
 /// dim_hash: variable-label *sets* ([x,y] vs [y,x] equal; [x] vs [y] and [x] vs [x,y] differ).
 #[cfg_attr(kani, kani::proof, kani::unwind(6),
-    kani::stub(std::fmt::format, fmt_stub),
     kani::stub(<[crate::proto::LabelPair]>::sort, sort_stub),
     kani::stub(<fnv::FnvHasher as std::hash::Hasher>::write, fnv_write_injective))]
 pub fn c15_dim_hash_variable_label_sets() {
@@ -139,7 +134,6 @@ pub fn c15_dim_hash_variable_label_sets() {
 /// dim_hash: a const label x is not a variable label x; same const-name set with different
 /// values keeps the signature (and changes the identity).
 #[cfg_attr(kani, kani::proof, kani::unwind(6),
-    kani::stub(std::fmt::format, fmt_stub),
     kani::stub(<[crate::proto::LabelPair]>::sort, sort_stub),
     kani::stub(<fnv::FnvHasher as std::hash::Hasher>::write, fnv_write_injective))]
 pub fn c15_dim_hash_const_vs_variable() {
